@@ -6,6 +6,7 @@ import "github.com/scigolib/hdf5/internal/zzverif/ev"
 // All is the registry used by cmd/vcheck.
 var All = []*ev.Property{
 	C01,
+	C02,
 	C08,
 	C11,
 	C14,
